@@ -1,6 +1,7 @@
 (* C04 -- sow, grow, reap returns exactly what running directly would have. *)
 From XV Require Import Prelude Grid Perm Runner Batch Crop Stages GenStages BridgeStages GenBatch BridgeBatch
      GridProofs PermProofs RunnerProofs BatchProofs AssocProofs CropProofs ReapProofs.
+From XV Require Sched GenPublish BridgePublish.
 From Coq Require Import Permutation.
 Open Scope Z_scope.
 
@@ -118,6 +119,12 @@ Example C04_example :
             VL [VS "nest"; enc_nest_of (run_core_out 0 (mk_input false [] [] [1; 3] [[0; 1]; [0; 1; 2]] [] false false None))]]].
 Proof. vm_compute. reflexivity. Qed.
 
+(* a batch's result file holds the results in the order of the batch's settings, with or without a worker
+   pool: `grow` evaluates every case, collects the futures in submission order and writes once (GenPublish) *)
+Theorem C04_grow_keeps_batch_order : GenPublish.gen_grow_shape = Sched.grow_shape_model.
+Proof. exact BridgePublish.bridge_grow_shape. Qed.
+
+Print Assumptions C04_grow_keeps_batch_order.
 Print Assumptions C04_roundtrip.
 Print Assumptions C04_shuffle_irrelevant.
 Print Assumptions C04_grow_history.
